@@ -94,6 +94,11 @@ KFL_FUNCS = {
 def run(prog, res):
   n, bt = axes.check_batch_independence(prog, res, ENTRIES, allow=X2_ALLOW)
   res.floor('X2', 45)
+  # a reshape that regroups (input, unit) pairs with a leading -1 silently
+  # re-cuts the batch axis: the two CDF siblings must agree on its target
+  from . import C14
+  C14._cdf_pair(prog, res)
+  res.floor('Y1', 7)
   _x1_ku(prog, res)
   _x1_lattice(prog, res)
   _x1_kfl(prog, res)
